@@ -5,6 +5,7 @@
 mod core;
 mod gen;
 mod props;
+mod sanitize;
 mod sched;
 mod supervise;
 
@@ -22,6 +23,7 @@ macro_rules! dispatch {
     ($id:expr, $f:ident, $($arg:expr),*) => {
         match $id {
             "C05" => $f::<props::c05::C05>($($arg),*),
+            "C08" => $f::<props::c08::C08>($($arg),*),
             "C09" => $f::<props::c09::C09>($($arg),*),
             "C12" => $f::<props::c12::C12>($($arg),*),
             "C13" => $f::<props::c13::C13>($($arg),*),
@@ -68,6 +70,18 @@ fn do_describe<P: Prop>(args: &[String]) -> i32 {
     0
 }
 
+fn do_inprocess<P: Prop>(args: &[String]) -> i32 {
+    let get = |n: &str| arg_value(args, n).unwrap_or_default();
+    run_inprocess::<P>(
+        Tier::parse(&get("--tier")).unwrap_or(Tier::Quick),
+        get("--seed").parse().unwrap_or(0),
+        &get("--lane"),
+        get("--shard").parse().unwrap_or(0),
+        get("--nshards").parse().unwrap_or(1),
+        get("--cases").parse().unwrap_or(1),
+    )
+}
+
 fn do_supervise<P: Prop>(tier: Tier, seed: u64) -> i32 {
     supervise::supervise::<P>(tier, seed, &props::extra_lanes::<P>).exit_code
 }
@@ -111,6 +125,8 @@ fn main() {
         "work" => dispatch!(id, do_work, &args),
         // print the case (lane, --idx) of a run without executing it
         "describe" => dispatch!(id, do_describe, &args),
+        // in-process runner (no worker processes, no files): used under Miri
+        "inprocess" => dispatch!(id, do_inprocess, &args),
         "supervise" => {
             let tier = Tier::parse(&arg_value(&args, "--tier").unwrap_or("quick".into()))
                 .unwrap_or(Tier::Quick);
